@@ -203,6 +203,36 @@ class NpShim:
             return out.view(SymArr) if out.shape else out[()]
         return np.where(cond, *xy)
 
+    def nan_to_num(self, x, copy=True, nan=0.0, posinf=None, neginf=None):
+        """np.nan_to_num on symbolic reals: an entry whose NaN flag holds becomes `nan` (default 0.0); infinities do not exist
+        in the exact-real model.  copy=False writes into x, as numpy does for float arrays."""
+        if isinstance(x, np.ndarray) and x.dtype == object and _has_sym(x):
+            USED.add("np.nan_to_num")
+            out = x.copy() if copy else x
+            for idx in np.ndindex(*x.shape):
+                v = x[idx]
+                if isinstance(v, SymReal) and v.nan is not None:
+                    r = sym._sr(nan)
+                    out[idx] = SymReal(z3.If(v.nan, r.t, v.t), nl=v.nl)
+            return out
+        return np.nan_to_num(x, copy=copy, nan=nan, posinf=posinf, neginf=neginf)
+
+    def gradient(self, f, *varargs, **k):
+        """np.gradient of a 1-d array of symbols with unit spacing: central differences inside, one-sided at both ends
+        (numpy's default edge_order=1); numpy itself would convert an object array to double"""
+        if isinstance(f, np.ndarray) and f.dtype == object and _has_sym(f):
+            if varargs or k or f.ndim != 1 or f.shape[0] < 2:
+                raise ModelGap("np.gradient with spacing arguments / more than one axis on symbolic values")
+            USED.add("np.gradient")
+            n = f.shape[0]
+            out = np.empty(n, dtype=object)
+            out[0] = f[1] - f[0]
+            out[n - 1] = f[n - 1] - f[n - 2]
+            for i in range(1, n - 1):
+                out[i] = (f[i + 1] - f[i - 1]) / 2
+            return out.view(SymArr)
+        return np.gradient(f, *varargs, **k)
+
     def isnan(self, a):
         a = _wrapin(a) if isinstance(a, np.ndarray) else a
         if isinstance(a, np.ndarray) and a.dtype == object:
